@@ -389,6 +389,7 @@ func TestC17Client(t *testing.T) {
 		}
 		steps := []scen.Step{{Op: "call", Calls: callers}, {Op: "await-requests", N: n}}
 		family := rapid.SampledFrom([]string{"errors", "errors", "migrate", "migrate-unconfigured"}).Draw(t, "family")
+		storageDown, otherMigrate := false, false
 		order := scen.Permute(s, tags)
 		switch family {
 		case "errors":
@@ -398,7 +399,13 @@ func TestC17Client(t *testing.T) {
 					row := rapid.SampledFrom(rows).Draw(t, "row")
 					text := rapid.SampledFrom([]string{row[0] + fmt.Sprint(rapid.IntRange(0, 100000).Draw(t, "param")) + row[1], "SOME_UNKNOWN_ERROR", "AUTH_KEY_UNREGISTERED", "100%_%d_%s", row[0] + "abc" + row[1], "FLOOD_WAIT_",
 						// the migration text with a parameter that is no data-centre number: an ordinary error for its caller
-						"PHONE_MIGRATE_X", "PHONE_MIGRATE_", "PHONE_MIGRATE_abc", "PHONE_MIGRATE_99999999999999999999", "PHONE_MIGRATE_2x"}).Draw(t, "text")
+						"PHONE_MIGRATE_X", "PHONE_MIGRATE_", "PHONE_MIGRATE_abc", "PHONE_MIGRATE_99999999999999999999", "PHONE_MIGRATE_2x",
+						// the other errors of the 303 family name a data centre the client knows: they are their caller's business
+						"USER_MIGRATE_7", "NETWORK_MIGRATE_7", "FILE_MIGRATE_7", "STATS_MIGRATE_7"}).Draw(t, "text")
+					if strings.HasSuffix(text, "_MIGRATE_7") {
+						sc.RPC.DCs = []int{7}
+						otherMigrate = true
+					}
 					if strings.HasPrefix(text, "PHONE_MIGRATE_") && decimal.MatchString(strings.TrimPrefix(text, "PHONE_MIGRATE_")) && len(text) < 24 {
 						text = "USER_MIGRATE_" + strings.TrimPrefix(text, "PHONE_MIGRATE_")
 					}
@@ -423,6 +430,12 @@ func TestC17Client(t *testing.T) {
 			// the migrating request is told to go to another data centre while the other calls are still in flight
 			// the text decides, whatever code comes with it
 			mcode := rapid.SampledFrom([]int32{303, 303, 400, 500, 0, -503}).Draw(t, "migrate-code")
+			if c.Configured && rapid.IntRange(0, 2).Draw(t, "storage-down") == 0 {
+				// the session storage cannot be written while the migration happens (read-only file, full disk): whatever
+				// the client wants to remember, the request is still repeated at the new data centre
+				steps = append(steps, scen.Step{Op: "store-fault", N: 1000})
+				storageDown = true
+			}
 			steps = append(steps, scen.Step{Op: "answer", Items: []scen.AnsItem{{Tag: c.Migrate, ErrCode: mcode, ErrText: fmt.Sprintf("PHONE_MIGRATE_%d", c.DC)}}})
 			if c.Configured {
 				steps = append(steps, scen.Step{Op: "await-requests", N: n}) // repeated at dc-7: again n unanswered
@@ -443,6 +456,12 @@ func TestC17Client(t *testing.T) {
 		cls := []string{"client:" + family, "client-verdict:" + verdict}
 		if len(sc.RPC.OtherClientDCs) > 0 {
 			cls = append(cls, "client:data-centre-known-to-another-client-only")
+		}
+		if storageDown {
+			cls = append(cls, "client:migrate-while-session-storage-fails")
+		}
+		if otherMigrate {
+			cls = append(cls, "client:other-migrate-error-naming-a-configured-data-centre")
 		}
 		run.Case(verdict != "inconclusive", evid.Hash(b, len(sc.RPC.OtherClientDCs)), cls...)
 		if err != nil {
